@@ -621,4 +621,78 @@ Section Main.
       intros HF. apply A12. unfold enqueue, set_queue. cbn [queue]. apply Forall_app. split; [exact HF|].
       constructor; [|constructor]. destruct k; cbn; auto.
   Qed.
+
+  Lemma InvD_ext s s' H :
+    queue s' = queue s -> active s' = active s -> local s' = local s -> slocks s' = slocks s -> blocks s' = blocks s ->
+    cont_rem s' = cont_rem s -> done s' = done s -> term s' = term s -> fresh s' = fresh s -> flag s' = flag s ->
+    InvD s H -> InvD s' H.
+  Proof.
+    intros E1 E2 E3 E4 E5 E6 E7 E8 E9 E10 [A1 A2 A3 A4 A5 A6 A7 A8 A9 A10 A11 A12].
+    constructor; unfold pk_act, pk_loc in *; rewrite ?E1, ?E2, ?E3, ?E4, ?E5, ?E6, ?E7, ?E8, ?E9, ?E10; assumption.
+  Qed.
+
+  (* ---- control-point moves ---- *)
+  Lemma inv_move s t p0 p : Inv s -> get_thr s t = Some p0 -> pc_tasks p = pc_tasks p0 ->
+    (p = PExit -> flag s = false) -> (active_pc p = false -> active_pc p0 = false) -> Inv (set_thr s t p).
+  Proof.
+    intros [D E L] G Hp Hx Ha.
+    assert (PH : Permutation (held (set_thr s t p)) (held s)).
+    { rewrite held_set_thr, (held_of s t p0 G), Hp. reflexivity. }
+    constructor.
+    - apply (InvD_ext s); try reflexivity. apply (InvD_perm s (held s)); [symmetry; exact PH|]. exact D.
+    - apply Forall_set_thr; [exact E|exact Hx].
+    - intros Hn. rewrite (existsb_set_thr s t p0 p G) in Hn. apply orb_false_elim in Hn as [Hn1 Hn2].
+      assert (existsb active_pc (thr s) = false) as Hs by (rewrite (existsb_thr s t p0 G), (Ha Hn1), Hn2; reflexivity).
+      destruct (L Hs) as [L1 L2]. split; [|exact L2].
+      apply Permutation_nil. rewrite <- L1. symmetry. exact PH.
+  Qed.
+
+  (* ---- fetching a task ---- *)
+  Lemma sdeps_cons k l : sdeps (k :: l) = match dep_of k with DSub sg => [sg] | _ => [] end ++ sdeps l.
+  Proof. reflexivity. Qed.
+  Lemma bdeps_cons k l : bdeps (k :: l) = match dep_of k with DBlk b => [b] | _ => [] end ++ bdeps l.
+  Proof. reflexivity. Qed.
+
+  Lemma inv_fetch s t p0 p i q k : Inv s -> get_thr s t = Some p0 -> pc_tasks p0 = [] -> pc_tasks p = [k] ->
+    nth_error (queue s) i = Some (q, k) -> dep_free s (dep_of k) = true ->
+    Inv (set_thr (take_dep (set_queue s (remove_nth i (queue s))) (dep_of k)) t p).
+  Proof.
+    intros [D E L] G Hp0 Hp Hn Hf.
+    set (s1 := take_dep (set_queue s (remove_nth i (queue s))) (dep_of k)).
+    assert (Hthr : thr s1 = thr s) by (unfold s1; destruct (dep_of k); reflexivity).
+    assert (Hflag : flag s1 = flag s) by (unfold s1; destruct (dep_of k); reflexivity).
+    assert (G1 : get_thr s1 t = Some p0) by (unfold get_thr; rewrite Hthr; exact G).
+    assert (PH : Permutation (held (set_thr s1 t p)) (k :: held s)).
+    { rewrite held_set_thr, Hp. unfold others. rewrite Hthr. cbn [app].
+      apply perm_skip. rewrite (held_of s t p0 G), Hp0. reflexivity. }
+    pose proof (remove_nth_perm _ _ _ Hn) as PQ.
+    assert (PQ' : Permutation (map snd (queue s)) (k :: map snd (remove_nth i (queue s)))).
+    { rewrite PQ at 1. reflexivity. }
+    assert (PT : Permutation (map snd (queue s) ++ held s) (map snd (remove_nth i (queue s)) ++ k :: held s)).
+    { rewrite PQ'. cbn [app]. apply Permutation_middle. }
+    destruct D as [A1 A2 A3 A4 A5 A6 A7 A8 A9 A10 [N1 N2] A12].
+    constructor.
+    - apply (InvD_perm _ (k :: held s)); [symmetry; exact PH|].
+      unfold dep_free in Hf. unfold s1.
+      constructor; unfold pk_act, pk_loc in *;
+        destruct (dep_of k) eqn:Ed;
+        cbn [queue active local slocks blocks cont_rem flushed done term fresh flag thr set_thr take_dep set_queue];
+        rewrite ?sdeps_cons, ?bdeps_cons, ?Ed; cbn [app];
+        try assumption;
+        try (rewrite <- A1; apply Permutation_app_head; apply Permutation_app_head; apply Permutation_app_tail;
+             apply Permutation_flat_map; symmetry; exact PT);
+        try (rewrite <- A3; f_equal; apply sum_perm; apply Permutation_map; symmetry; exact PT);
+        try (rewrite A4; apply sum_perm; apply Permutation_map; exact PT);
+        try (eapply Permutation_Forall; [exact PT|exact A7]);
+        try (apply perm_skip; assumption);
+        try (split; [try assumption|try assumption]; constructor; [apply memb_false_notin; apply negb_true_iff; exact Hf|assumption]);
+        try (split; assumption);
+        try (rewrite Forall_forall in *; intros e He; apply A12; apply (Permutation_in e (Permutation_sym PQ)); right; exact He).
+    - apply Forall_set_thr.
+      + rewrite Hthr. eapply Forall_impl; [|exact E]. intros a Ha Hx. cbn [flag set_thr]. rewrite Hflag. auto.
+      + intros ->. cbn in Hp. discriminate.
+    - intros Hn'. exfalso. rewrite (existsb_set_thr s1 t p0 p G1) in Hn'.
+      apply orb_false_elim in Hn' as [Hn1 _].
+      destruct p as [| [k'|] | | | [k'|] | | | | |]; cbn in Hp, Hn1; discriminate.
+  Qed.
 End Main.
